@@ -488,6 +488,20 @@ def run(rep):
     names += ['path\\to', 'a|b', '\\', '|', 'x\\|y', 'end\\', '\\\\n',
               'a\\b|c', '||', 'q\\ r']
     j = 0
+    # the export checker's special formulas (several custom and parametric
+    # sorts at once, sorts that occur only in binders or literals, shared
+    # sub-terms, let-like names) through pySMT's own reader
+    from .c07 import special_cases as export_specials
+    common.fresh_env()
+    for i, b in enumerate(export_specials(names)):
+        if i % rep.nshards != rep.shard:
+            continue
+        for proc in ('tree', 'dag'):
+            if rep.only and rep.only != proc:
+                continue
+            ck.check(proc, b, j)
+            rep.count('export_special_cases')
+            j += 1
     n = 700 if quick else 40000
     rep.share(0.4)
     k = 0
